@@ -453,10 +453,21 @@ def pathBase (p : Text) : Text :=
 def pathJoin2 (d t : Text) : Text :=
   if d ≠ [] then pathClean (d ++ '/' :: t) else if t ≠ [] then pathClean t else []
 
+/-- `isWithin(base, p)` (common.go, after the repair of the sibling-prefix defect): `p` is the cleaned base
+itself or lies below it; the separator is part of the prefix -/
+def withSlash (b : Text) : Text :=
+  match b.reverse with
+  | '/' :: _ => b
+  | _ => b ++ ['/']
+
+def isWithin (base p : Text) : Bool :=
+  let b := pathClean base
+  p == b || (withSlash b).isPrefixOf p
+
 /-- `sanitizeArchivePath(d, t)` with the error dropped (the caller ignores it): "" when tainted -/
 def sanitizeJoin (d t : Text) : Text :=
   let v := pathJoin2 d t
-  if (pathClean d).isPrefixOf v then v else []
+  if isWithin d v then v else []
 
 /-! ## file records of the installed db -/
 
